@@ -518,7 +518,7 @@ func (runInfo *runInfoStruct) runForSliceStmt(stmt *ast.ForStmt, value reflect.V
 		if iv.Kind() == reflect.Interface && !iv.IsNil() {
 			iv = iv.Elem()
 		}
-		if iv.Kind() == reflect.Ptr && !iv.IsNil() {
+		if iv.Kind() == reflect.Ptr && !iv.IsNil() && !isTypeValue(iv) {
 			iv = iv.Elem()
 		}
 		runInfo.env.DefineValue(stmt.Vars[0], iv)
@@ -620,7 +620,7 @@ func (runInfo *runInfoStruct) runForChanStmt(stmt *ast.ForStmt, value reflect.Va
 		if runInfo.rv.Kind() == reflect.Interface && !runInfo.rv.IsNil() {
 			runInfo.rv = runInfo.rv.Elem()
 		}
-		if runInfo.rv.Kind() == reflect.Ptr && !runInfo.rv.IsNil() {
+		if runInfo.rv.Kind() == reflect.Ptr && !runInfo.rv.IsNil() && !isTypeValue(runInfo.rv) {
 			runInfo.rv = runInfo.rv.Elem()
 		}
 
